@@ -234,7 +234,7 @@ impl Prop for C15 {
             .to_string()
     }
     fn n_cases(&self, tier: Tier) -> u64 {
-        tier.pick(10000, 100000)
+        tier.pick(10000, 50000)
     }
     fn timeout_s(&self, tier: Tier) -> u64 {
         tier.pick(60, 120)
